@@ -282,8 +282,8 @@ def gen(rng, tier):
         EXPECT[line] = (b2, expected_view(r2))
         out.append(Case(line, kind="insert-then-decode", theorem="C11_pes_pts_dts_readback", proj=proj_put))
     # 4b. the library's own builder packet.WithPES, then packet.PESHeader / NewPESHeader (end to end through the library)
-    afs = [None] + list(range(0, 256)) if tier == "thorough" else [None, 0, 1, 2, 7, 100, 168, 169, 170, 171, 174, 175, 179, 180, 182, 183, 184, 255]
-    for i, af in enumerate(afs * (1 if tier == "thorough" else 4)):
+    afs = [None, None, None, None] + list(range(0, 256))   # no adaptation field, and every adaptation_field_length
+    for i, af in enumerate(afs * (8 if tier == "thorough" else 1)):
         pk = bytearray(rng.randrange(256) for _ in range(188)); pk[0] = 0x47
         if rng.random() < 0.3:
             pk = bytearray(188); pk[0] = 0x47; pk[1] = 0x41
